@@ -13,7 +13,7 @@
 (*              within MaxTokens tokens (the budget)                       *)
 (*   Finish     the sentential form is all terminals: emit the sentence    *)
 (*   Mutate     delete / insert / replace / swap one token of the emitted  *)
-(*              sequence and emit the result (up to MaxMut times)          *)
+(*              sequence (up to MaxMut times); EmitMutant emits the result *)
 (*                                                                         *)
 (* Used with -simulate as a generator (every Finish / Mutate prints one    *)
 (* JSON case) and model-checked exhaustively on a small grammar            *)
@@ -53,8 +53,8 @@ MinLenFix(ml) ==
 MinLen  == MinLenFix([X \in NT |-> Inf])
 Yield   == [i \in DOMAIN G.prods |-> SumLen(MinLen, Rhs(G.prods[i]), 1)]   \* least yield of each production
 
-VARIABLES done, todo, need, phase, nmut, prev
-vars == <<done, todo, need, phase, nmut, prev>>
+VARIABLES done, todo, need, phase, nmut, prev, target, lastop
+vars == <<done, todo, need, phase, nmut, prev, target, lastop>>
 
 \* move leading terminals of a sentential form to the produced prefix
 RECURSIVE LeadTerms(_)
@@ -66,6 +66,8 @@ Init == /\ done = <<>>
         /\ phase = "derive"
         /\ nmut = 0
         /\ prev = <<>>
+        /\ lastop = ""
+        /\ target \in {0, Target \div 3, Target}      \* how long this derivation is pushed to grow
 
 Expand ==
     /\ phase = "derive"
@@ -73,7 +75,7 @@ Expand ==
     /\ LET X == todo[1]
        IN  \E coin \in 1..Bias : \E p \in By[X] :
              LET need2 == need - MinLen[X] + Yield[p]
-                 short == Len(done) + need < Target
+                 short == Len(done) + need < target
                  alt   == \E q \in By[X] : Yield[q] > MinLen[X] /\ Len(done) + need - MinLen[X] + Yield[q] <= MaxTokens
                  form  == Rhs(G.prods[p]) \o Tail(todo)
                  k     == LeadTerms(form)
@@ -83,14 +85,14 @@ Expand ==
                  /\ done' = done \o SubSeq(form, 1, k)
                  /\ todo' = SubSeq(form, k + 1, Len(form))
                  /\ need' = need2 - k
-    /\ UNCHANGED <<phase, nmut, prev>>
+    /\ UNCHANGED <<phase, nmut, prev, target, lastop>>
 
 Finish ==
     /\ phase = "derive"
     /\ todo = <<>>
     /\ PrintT(ToJson([kind |-> "sentence", op |-> "", w |-> done]))
     /\ phase' = "sentence"
-    /\ UNCHANGED <<done, todo, need, nmut, prev>>
+    /\ UNCHANGED <<done, todo, need, nmut, prev, target, lastop>>
 
 Delete(s, k)     == SubSeq(s, 1, k - 1) \o SubSeq(s, k + 1, Len(s))
 Insert(s, k, x)  == SubSeq(s, 1, k) \o <<x>> \o SubSeq(s, k + 1, Len(s))        \* after position k
@@ -103,19 +105,27 @@ Mutants(s) ==
     \cup UNION {{[op |-> "replace", w |-> Replace(s, k, x)] : x \in Term \ {s[k]}} : k \in 1..Len(s)}
     \cup {[op |-> "swap", w |-> Swap(s, k)] : k \in {j \in 1..(Len(s) - 1) : s[j] # s[j + 1]}}
 
+\* (Printing happens in EmitMutant, from the state actually reached: TLC evaluates an action for
+\* every candidate successor, so a print inside Mutate would list all mutants, not the chosen one.)
 Mutate ==
     /\ phase \in {"sentence", "mutant"}
     /\ nmut < MaxMut
     /\ \E op \in {"delete", "insert", "replace", "swap"} :       \* one operation kind, then one instance
          \E m \in {m \in Mutants(done) : m.op = op} :
             /\ done' = m.w
-            /\ PrintT(ToJson([kind |-> "mutant", op |-> m.op, w |-> m.w]))
+            /\ lastop' = m.op
     /\ prev' = done
-    /\ phase' = "mutant"
+    /\ phase' = "pending"
     /\ nmut' = nmut + 1
-    /\ UNCHANGED <<todo, need>>
+    /\ UNCHANGED <<todo, need, target>>
 
-Next == Expand \/ Finish \/ Mutate
+EmitMutant ==
+    /\ phase = "pending"
+    /\ PrintT(ToJson([kind |-> "mutant", op |-> lastop, w |-> done]))
+    /\ phase' = "mutant"
+    /\ UNCHANGED <<done, todo, need, nmut, prev, target, lastop>>
+
+Next == Expand \/ Finish \/ Mutate \/ EmitMutant
 
 -----------------------------------------------------------------------------
 (* Design-level properties (model-checked on a small grammar).             *)
@@ -137,5 +147,5 @@ OneEditApart(s, t) ==
     \/ Len(t) = Len(s) + 1 /\ \E k \in 1..Len(t) : s = Delete(t, k)
     \/ Len(t) = Len(s) /\ Cardinality({k \in 1..Len(s) : s[k] # t[k]}) \in {1, 2}
 
-MutantIsOneEditAway == phase = "mutant" => OneEditApart(prev, done)
+MutantIsOneEditAway == phase \in {"pending", "mutant"} => OneEditApart(prev, done)
 =============================================================================
